@@ -223,16 +223,47 @@ func runOne(w world.World, p *world.Plan, img *simenv.Image, kn map[string]bool)
 	return res
 }
 
+// (norace: it peeks at the counters of the plan in progress without synchronisation, on purpose.)
+//
+//go:norace
 func watchdog() {
 	last := simcore.LastEventSeq()
 	stuck := time.Now()
+	lastProg, idle := -1, time.Now()
 	for {
 		time.Sleep(200 * time.Millisecond)
 		if !simcore.Active() {
 			last = simcore.LastEventSeq()
 			stuck = time.Now()
+			// driver code between scheduler runs (steady setup, final Reset): hooks are inactive there,
+			// so a lock that goom leaked blocks the driver for real. Progress = oracle evaluations +
+			// operations of the plan in progress.
+			r := current
+			if r == nil {
+				lastProg, idle = -1, time.Now()
+				continue
+			}
+			if prog := r.Checks + r.Ops; prog != lastProg {
+				lastProg, idle = prog, time.Now()
+				continue
+			}
+			if time.Since(idle) > 40*time.Second {
+				buf := make([]byte, 1<<18)
+				buf = buf[:runtime.Stack(buf, true)]
+				r.Stats = simcore.Snapshot()
+				r.Fired = simcore.FiredSoFar()
+				r.Plan = curPlan
+				if r.Verdict == "ok" {
+					r.Verdict = "violation"
+					r.Sig = "liveness/blocked-outside-run"
+					r.Msg = "no progress for 40s while the driver executed goom operations outside a scheduler run (a lock that was never released?)\n" + string(buf)
+				}
+				emit(r)
+				os.Exit(3)
+			}
 			continue
 		}
+		lastProg, idle = -1, time.Now()
 		if s := simcore.LastEventSeq(); s != last {
 			last = s
 			stuck = time.Now()
